@@ -35,7 +35,7 @@ CHECKS = {
  "C09": dict(text="Proof (Coq, partial): for every sequence of the token-book operations the code performs under its own tests, no assertion of jobserver.rs can fail (C09_no_token_assertion, invariant my,cheats in {0,1}); globally no book or pipe goes negative. Deadlock-freedom is not proved. On the implementation: all-success builds under perturbed schedules (processes stopped/continued at random so that child exits, token arrivals and lock hand-overs coincide), duplicate targets, contending invocations, externally held log locks (cheat storm): must end with exit 0, no panic, token trace accepted by the model.",
     note=TB + " the model assumes a cheat is granted only to a process holding none (not tested by the code; unconfirmed on the real binary, see DESIGN.md); OS fairness and the 60 s SQLite timeout are assumptions.",
     technique="Coq safety proof of the token-book automaton + schedule-perturbed runs of the implementation with trace validation", ref="5/C09"),
- "C12": dict(text="Proof (Coq, partial): the three detection rules return 208 at once without starting a job (target being built by an ancestor; script asking for its own target; recorded chain returning to a file under check); cycles of length 1..3 from every entry on the serial model. On the implementation: cycles of length 1..4 behind prefixes, every entry, -j1..4, bound 15 s. The parallel multi-entry hang is known finding F9.",
+ "C12": dict(text="Proof (Coq, partial): the three detection rules return 208 at once without starting a job (target being built by an ancestor; script asking for its own target; recorded chain returning to a file under check); cycles of length 1..3 from every entry on the serial model; a dependency that was turned round is not a cycle (C12_dependency_in_mid_build_is_dirty, C12_reversed_dependency_is_no_cycle; finding F66). On the implementation: cycles of length 1..4 behind prefixes, every entry, -j1..4, bound 15 s. The parallel multi-entry hang is known finding F9.",
     note=TB + " termination of the nested recursion is not proved in Coq.",
     technique="Coq proof of the detection rules + bounded-time cyclic scenarios on the implementation", ref="5/C12"),
  "C08": dict(text="Proof (Coq): for every event sequence of any number of redo processes (start, nested begin, token read, cheat, reap with/without cheat byte, release, abandon-on-error-exit, self-test, exit) the quantity Q = T - C + sum(my - cheats) + J - L is conserved; all books and pipes stay non-negative; working jobs <= n + outstanding cheats, and <= n exactly when no cheat is granted (no log capture); with log capture 'n plus at most one' is proved FALSE of the model by a witness trace (known finding F50, driven on the binaries and replayed through the model on every run); the top-level self-test cannot fail; the tokenless exit of finding F7 is exactly the event the model refuses. Tie: trace validation -- every token-book event reported by the hooked implementation in real parallel builds (-j1..8, log capture on/off, failing builds, inherited jobserver, error exits with sibling jobs still running) is replayed through the extracted model, which must accept it and reproduce the reported book and pipe writes. Oracles: self-test message, inherited pipe content, measured work overlap.",
@@ -66,7 +66,7 @@ CHECKS = {
  "C17": dict(text="Proof (Coq): the three query commands change nothing but the run-id counter (files, rows, dependency records identical); targets and sources are disjoint; what is in neither list is a special name or a file missing on disk; the ood walk touches no file; redo-ood's dirtiness walk (set in memory) and the builder's (checked_runid in the database, rows judged on copies) return the same verdicts for any list of targets whenever both return, from any state at the start of a run (C17_ood_agrees_with_builder: simulation with a 'settled rows' invariant, Build/OodAgree.v) -- the lower-bound clause on the model. The bounds on redo-ood are also decided against the implementation (paired runs with and without queries, lower bound).  Completeness of the walk (Build/CleanProofs.v): on every quiet set of rows (not failed, built, stamp matches, ifcreate paths absent, dependencies inside the set, not newer, acyclic) the check answers CLEAN and writes nothing, for every database and file system." + SERIAL,
     note=TB + " redo-ood's rolled-back write is modelled as discarded.",
     technique="Coq proof of read-only/partition facts and of the agreement of redo-ood's walk with the builder's (simulation) + model/implementation differential check with query commands at every point", ref="5/C17"),
- "C18": dict(text="Proof (Coq): (a) format/parse round trip for every well-formed record (text may contain '@@ ' or '@@REDO:'), soundness of parse, done-record round trip. Tie: exhaustive small strings + random + malformed stream, model vs redo::logs::Meta. Part (b): the follower's partial-line buffer is modelled (LogRec/Assemble.v) and proved to lose/duplicate nothing and to emit the same lines for every fragmentation of the log's bytes (C18_fragmentation_independent); the replay redo-log -r [-u] is modelled (LogRec/Catlog.v: recursion over nested logs, already-set, headers, resumed, done, unterminated last line, exit 24, panics) and proved, for every set of logs and every name resolution, to show each reached target's plain lines exactly once, in order, under a header naming that target (C18b_replay_lines_once, C18b_replay_attributed), and the follower to see the static model's lines (C18b_follow_equals_static); tie: the bytes printed by the real redo-log on the logs of random real builds equal the model's rendering (pid/time normalised), exit status included. The live (follow, lock-aware) output is decided on the implementation: numbered stderr lines (long, trailing blanks, unterminated, one line delivered in 3-5 fragments) at -j1..4 must appear once, in order, under their own target (PARTIAL for the live clause); findings F11, F52, F53 known.",
+ "C18": dict(text="Proof (Coq): (a) format/parse round trip for every well-formed record (text may contain '@@ ' or '@@REDO:'), soundness of parse, done-record round trip. Tie: exhaustive small strings + random + malformed stream, model vs redo::logs::Meta. Part (b): the follower's partial-line buffer is modelled (LogRec/Assemble.v) and proved to lose/duplicate nothing and to emit the same lines for every fragmentation of the log's bytes (C18_fragmentation_independent); the replay redo-log -r [-u] is modelled (LogRec/Catlog.v: recursion over nested logs, already-set, headers, resumed, done, unterminated last line, exit 24, panics) and proved, for every set of logs and every name resolution, to show each reached target's plain lines exactly once, in order, under a header naming that target (C18b_replay_lines_once, C18b_replay_attributed), and the follower to see the static model's lines (C18b_follow_equals_static); a physical line 'text + record' is cut in two without loss (C18b_text_then_record_line; finding F64); tie: the bytes printed by the real redo-log on the logs of random real builds equal the model's rendering (pid/time normalised), exit status included. The live (follow, lock-aware) output is decided on the implementation: numbered stderr lines (long, trailing blanks, unterminated, one line delivered in 3-5 fragments) at -j1..4 must appear once, in order, under their own target (PARTIAL for the live clause); findings F11, F52, F53 known.",
     note=TB + " f64 timestamps modelled as integers in 1e-4 s; signs/exponents/inf/nan in timestamps are outside the model.",
     technique="Coq proof (round trip) + exhaustive model/implementation differential check", ref="5/C18"),
 }
